@@ -1,5 +1,5 @@
 CONSTANTS Clients = {"c1", "c2"}  Names = {"k1", "k2"}  MaxId = 2  MaxOps = 5  Variant = "code"
 SPECIFICATION Spec
 INVARIANTS TypeOK MutexExclusive PinnedNeverWrong CacheNameSound FetchIsCurrent
-PROPERTIES PinnedNotCached
+PROPERTIES PinnedNotCached FailedFetchIsError
 CHECK_DEADLOCK FALSE
